@@ -349,6 +349,27 @@ PROPS = {
         "not_covered": ["leaf codecs (scalars, points), Polynomial/Evaluations/CommitKey/OpeningKey/PublicParameters byte bodies",
                         "behavioural equality of decoded prover/verifier beyond the parts handed to the constructors"],
     },
+    "C19": {
+        "v_units": ["kernels.py"],
+        "r": [("kernels", None)],
+        "claim": "per-INSTANCE exactness of the serial kernels on the real functions (every element value symbolic, every zero / "
+                 "non-zero pattern a separate path, results compared in exact polynomial normal form): util::batch_inversion inverts every "
+                 "non-zero entry and leaves zeros (lengths 0-5, all 2^k patterns; inverse stated in product form); Polynomial::ruffini is "
+                 "division by (X - z) (lengths 0-6, closed-form quotient + LEMMA q(X)(X-z) + p(z) == p(X)); Polynomial::evaluate == sum p_i v^i "
+                 "(lengths 0-6); &a + &b, &a - &b, a += &b, a -= &b, a += (f, &b) equal a(X) +/- f b(X) as polynomials in X and return a "
+                 "normalised result (all length pairs 0-3 x 0-3, arbitrary - also non-normalised - inputs); util::powers_of(x, d) == "
+                 "[x^0..x^d] for ALL d (Verus loop invariant).",
+        "technique": "contract-based deductive verification: ring/trace contract checker on the real function bodies, instance by instance "
+                     "(bounded in the vector length only) + Verus (powers_of, unbounded)",
+        "level_note": "BOUNDED in length: each instance is exact for all element values but covers only the stated lengths. NOT decided: "
+                      "FFT / IFFT / coset variants against the DFT (not built yet), the rayon paths and thread-count independence, FFT-based "
+                      "polynomial multiplication, Lagrange / barycentric closed forms.",
+        "design_ref": "DESIGN.md §4 C19, §9",
+        "assumptions": A_RING + A_VERUS + ["field inverse as an uninterpreted symbol inv(p); results stated in product form (inv(T) * cofactor), "
+                                          "which equals 1/v_i because inv(T) * T == 1 in a field"],
+        "trusted": T_RING + T_VERUS,
+        "not_covered": ["FFT kernels, rayon schedules, polynomial multiplication, Lagrange/barycentric evaluations, lengths beyond the instances"],
+    },
     "C15": {
         "v_units": ["capacity.py", "compress.py"],
         "claim": "(a) the two routes accept exactly the same capacities: Compiler::max_constraints(pp) == pow2_floor(max_degree - 6) - 6 "
